@@ -577,6 +577,21 @@ theorem evGithub_props (st : State) (snap : Snapshot) :
   obtain ⟨p, hp, hps, e4, e5⟩ := h1.2 p' hp' (e3 ▸ hs)
   exact ⟨p, hp, hps, e1.trans e4, e2.trans e5⟩
 
+theorem evGithubPartial_props (st : State) (snap : Snapshot) (n : Nat) :
+    Refines st (evGithubPartial st snap n) ∧ (evGithubPartial st snap n).prs.map (·.number) = snap.prs.map (·.number) ∧
+    (evGithubPartial st snap n).svc = st.svc := by
+  unfold evGithubPartial
+  simp only
+  have h1 := refreshPRs_props st.prs snap.prs
+  have h2 := updateGithubAll_props ((refreshPRs st.prs snap.prs).1.take n) (snap.prs.take n)
+  refine ⟨⟨SvcExt.refl _, fun q hq hs => ?_⟩, ?_, by triv⟩
+  · rcases List.mem_append.1 hq with hq | hq
+    · obtain ⟨p', hp', e1, e2, e3⟩ := h2.2 q hq
+      obtain ⟨p, hp, hps, e4, e5⟩ := h1.2 p' (List.mem_of_mem_take hp') (e3 ▸ hs)
+      exact ⟨p, hp, hps, e1.trans e4, e2.trans e5⟩
+    · exact h1.2 q (List.mem_of_mem_drop hq) hs
+  · rw [List.map_append, h2.1, ← List.map_append, List.take_append_drop, h1.1]
+
 theorem updateBatch_number (fix : Bool) (p : PR) (svc : List BatchRec) :
     (p.updateBatch fix svc).1.number = p.number ∧ (p.updateBatch fix svc).1.sourceSha = p.sourceSha := by
   unfold PR.updateBatch
@@ -624,6 +639,7 @@ theorem evHeal_props (st : State) (a : Answers) :
 /-- the events a history may contain: GitHub never lists the same PR number twice -/
 def Event.wf : Event → Prop
   | .github s => (s.prs.map (·.number)).Nodup
+  | .githubPartial s _ => (s.prs.map (·.number)).Nodup
   | _ => True
 
 instance (e : Event) : Decidable e.wf := by
@@ -636,6 +652,7 @@ theorem step_numsOK (fix : Bool) (st : State) (e : Event) (hw : e.wf) (h : NumsO
   | flag f => cases f <;> exact h
   | batchFailed => exact h
   | githubFailed => exact h
+  | githubPartial s n => unfold NumsOK step; simp only; rw [(evGithubPartial_props st s n).2.1]; exact hw
   | github s => unfold NumsOK step; simp only; rw [(evGithub_props st s).2.1]; exact hw
   | batch => unfold NumsOK step; simp only; rw [(evBatch_numbers fix st).1]; exact h
   | heal a => unfold NumsOK step; simp only; rw [(evHeal_props st a).2]; exact h
@@ -695,6 +712,7 @@ theorem invQ_step {Q : PR → List BatchRec → Prop} (fix : Bool) (hQ : GoodQ Q
   | flag f => cases f <;> exact hi
   | batchFailed => exact hi
   | githubFailed => exact hi
+  | githubPartial s n => exact invQ_refines hQ (evGithubPartial_props st s n).1 hi
   | github s => exact invQ_refines hQ (evGithub_props st s).1 hi
   | heal a => exact invQ_refines hQ (evHeal_props st a).1 hi
   | done id ok => exact invQ_refines hQ (evDone_props st id ok).1 hi
